@@ -297,7 +297,7 @@ func onEveryPath(fn *ssa.Function, b *ssa.BasicBlock, call *ssa.Call) bool {
 // delivered downstream runs the teardown on the same goroutine (self-deadlock), and a concurrent terminal from another
 // source closes the cycle between the operator's lock and the subscriber's lock.
 func (pc *pCtx) p10LockOrder(s *pSite) {
-	props := []string{"C07", "C05"}
+	props := []string{"C07", "C05", "C06"} // C06: Unsubscribe may be called from inside a callback - the teardown then runs under every lock the delivery holds
 	// locks the teardown functions acquire (directly)
 	tdLocks := map[ssa.Value]bool{}
 	for _, fn := range s.Closures {
